@@ -218,6 +218,21 @@ class CFG:
             return self._cond(e.operand, ctx, f, t)
         if isinstance(e, ast.Constant):
             return t if e.value else f
+        if isinstance(e, ast.Compare) and len(e.ops) == 1 and isinstance(
+                e.ops[0], (ast.NotEq, ast.IsNot, ast.NotIn)):
+            # one spelling per comparison: ``a != b`` is the positive test
+            # ``a == b`` with the branches swapped (the operands are shared
+            # with the source expression)
+            pos = {ast.NotEq: ast.Eq, ast.IsNot: ast.Is,
+                   ast.NotIn: ast.In}[type(e.ops[0])]
+            e2 = ast.copy_location(ast.Compare(
+                left=e.left, ops=[pos()], comparators=e.comparators), e)
+            n = self._new('cond', e, ctx)
+            n.atom = e2
+            n.exprs = [e]
+            n.succ.append((f, ('T', e2)))
+            n.succ.append((t, ('F', e2)))
+            return n.id
         n = self._new('cond', e, ctx)
         n.atom = e
         n.exprs = [e]
